@@ -70,8 +70,9 @@ def analyse(events, rr, world, R, nw):
                 armed = False
         return out
     ee = [entries(byrank[r]) for r in range(R)]
-    eest_agree = all(len(x) == len(ee[0]) for x in ee) and all(
-        abs(ee[r][k] - ee[0][k]) <= 1e-12 * max(1, abs(ee[0][k])) for r in range(R) for k in range(len(ee[0])))
+    def same(a, b):      # a population that went extinct gives NaN estimates on every rank alike: that is agreement
+        return (np.isnan(a) and np.isnan(b)) or a == b or abs(a - b) <= 1e-12 * max(1, abs(b))
+    eest_agree = all(len(x) == len(ee[0]) for x in ee) and all(same(ee[r][k], ee[0][k]) for r in range(R) for k in range(len(ee[0])))
     # (2) global reconfigurations: k-th SRGlobal of every rank belongs to the same collective
     srs = [[e for e in byrank[r] if e["ev"] == "SRGlobal"] for r in range(R)]
     sr_ok = all(len(x) == len(srs[0]) for x in srs)
@@ -92,9 +93,13 @@ def analyse(events, rr, world, R, nw):
                     elif all(i // nw != r for i in hit):
                         moved_across += 1
     res = [x for x in rr.results]
-    result_agree = rr.ok and all(x is not None for x in res) and all(
-        (x[0] == res[0][0] or abs(x[0] - res[0][0]) <= 1e-12) and (x[1] == res[0][1]) for x in res)
+    def same_res(a, b):
+        if a is None or b is None:
+            return a is b
+        return same(float(a), float(b))
+    result_agree = rr.ok and all(x is not None for x in res) and all(same_res(x[0], res[0][0]) and same_res(x[1], res[0][1]) for x in res)
     seqs = [[t[0] for t in world.ops[r]] for r in range(R)]
     return {"seqs": seqs, "completed": bool(rr.ok), "eest_agree": bool(eest_agree), "sr_ok": bool(sr_ok),
             "result_agree": bool(result_agree)}, {"moved_across_ranks": moved_across, "entries": len(ee[0]),
-                                                   "global_srs": len(srs[0]), "describe": rr.describe()}
+                                                   "global_srs": len(srs[0]), "describe": rr.describe(),
+                                                   "degenerate": bool(any(not np.isfinite(v) for x in ee for v in x))}
